@@ -13,7 +13,7 @@
 #include "reflect.h"
 using namespace Vector::BLF;
 
-static const size_t CAP = 268435456;
+static size_t CAP = 268435456;
 void* operator new(size_t n) { if (n > CAP) throw std::bad_alloc(); void* p = malloc(n ? n : 1); if (!p) throw std::bad_alloc(); return p; }
 void* operator new[](size_t n) { if (n > CAP) throw std::bad_alloc(); void* p = malloc(n ? n : 1); if (!p) throw std::bad_alloc(); return p; }
 void operator delete(void* p) noexcept { free(p); }
@@ -35,6 +35,20 @@ static std::string dump_obj(const ClassReflect* c, ObjectHeaderBase* o) {
     return s;
 }
 
+// decorator that forwards to the real in-memory stream and records the ghost flag `short`
+struct Tracker : AbstractFile {
+    UncompressedFile& u; bool short_ = false;
+    explicit Tracker(UncompressedFile& x) : u(x) {}
+    std::streamsize gcount() const override { return u.gcount(); }
+    void read(char* s, std::streamsize n) override { u.read(s, n); if (u.gcount() < n) short_ = true; }
+    std::streampos tellg() override { return u.tellg(); }
+    void seekg(std::streamoff off, const std::ios_base::seekdir way = std::ios_base::cur) override { u.seekg(off, way); }
+    void write(const char* s, std::streamsize n) override { u.write(s, n); }
+    std::streampos tellp() override { return u.tellp(); }
+    bool good() const override { return u.good(); }
+    bool eof() const override { return u.eof(); }
+};
+
 static std::string do_enc(std::istringstream& is) {
     std::string cn; is >> cn; const ClassReflect* c = find_class(cn); if (!c) return "bad-class";
     ObjectHeaderBase* o = c->make();
@@ -52,7 +66,7 @@ static std::string do_enc(std::istringstream& is) {
     return r;
 }
 
-static std::string do_dec(std::istringstream& is) {
+static std::string do_dec(std::istringstream& is, bool reenc) {
     std::string cn, h; is >> cn >> h; const ClassReflect* c = find_class(cn); std::vector<uint8_t> b;
     if (!c || !parse_hex(h, b)) return "bad-request";
     UncompressedFile uf;
@@ -60,13 +74,24 @@ static std::string do_dec(std::istringstream& is) {
     uf.setFileSize(std::streamsize(b.size()));
     ObjectHeaderBase* o = c->make();
     std::string halt = "none";
-    try { o->read(uf); } catch (Exception&) { halt = "exc"; } catch (std::bad_alloc&) { halt = "badalloc"; } catch (std::length_error&) { halt = "badalloc"; }
-    if (halt == "badalloc") { delete o; return "dec halt=badalloc"; }
+    Tracker tf(uf);
+    try { o->read(tf); } catch (Exception&) { halt = "exc"; } catch (std::bad_alloc&) { halt = "badalloc"; } catch (std::length_error&) { halt = "badalloc"; }
+    if (halt == "badalloc") { delete o; return std::string(reenc ? "reenc" : "dec") + " halt=badalloc"; }
     bool good = uf.good(), eof = uf.eof();
     std::vector<char> tmp(b.size() + 8);
     uf.read(tmp.data(), std::streamsize(tmp.size()));
     std::streamsize pos = std::streamsize(b.size()) - uf.gcount();
-    std::string r = "dec halt=" + halt + " pos=" + std::to_string(pos) + " good=" + (good ? "true" : "false") + " eof=" + (eof ? "true" : "false") + " obj " + dump_obj(c, o);
+    std::string r = std::string(reenc ? "reenc" : "dec") + " halt=" + halt + " pos=" + std::to_string(pos) + " good=" + (good ? "true" : "false") + " eof=" + (eof ? "true" : "false") + " short=" + (tf.short_ ? "true" : "false");
+    if (!reenc) r += " obj " + dump_obj(c, o);
+    else if (halt == "none" && !tf.short_) {
+        // decoded completely: encode the decoded object again
+        UncompressedFile uo; std::string h2 = "none";
+        try { o->write(uo); } catch (Exception&) { h2 = "exc"; } catch (std::bad_alloc&) { h2 = "badalloc"; } catch (std::length_error&) { h2 = "badalloc"; }
+        std::streamsize n = uo.tellp(); std::vector<uint8_t> out(size_t(n > 0 ? n : 0));
+        if (n > 0) uo.read(reinterpret_cast<char*>(out.data()), n);
+        r += " ehalt=" + h2 + " out=" + to_hex(out.data(), out.size());
+    }
+    if (reenc) r += " obj " + dump_obj(c, o);
     delete o;
     return r;
 }
@@ -94,12 +119,14 @@ static std::string do_dflt(std::istringstream& is) {
 static std::string handle(const std::string& line) {
     std::istringstream is(line); std::string cmd; is >> cmd;
     if (cmd == "enc") return do_enc(is);
-    if (cmd == "dec") return do_dec(is);
+    if (cmd == "dec") return do_dec(is, false);
+    if (cmd == "reenc") return do_dec(is, true);
     if (cmd == "dflt") return do_dflt(is);
     return "bad-request";
 }
 
 int main() {
+    if (const char* e = getenv("VERIF_CAP")) CAP = size_t(strtoull(e, nullptr, 10));
     std::ios::sync_with_stdio(false);
     std::string line;
     while (std::getline(std::cin, line)) {
